@@ -44,7 +44,7 @@ theorem bigint_abs_spec {x : BigInt} (hx : x.Canon) : BigInt.abs x = BigInt.ofIn
     have hz : ¬ (BigUint.isZero m = true) := by
       rw [isZero_iff, hm, ofNat_eq_nil_iff]; exact hne
     rw [ofInt_natCast, if_neg hne, ← hm]
-    simp [BigInt.abs, BigUint.clone, BigInt.fromU, hz]
+    simp [BigInt.abs, BigUint.clone, Core.BigInt.fromU, hz]
 
 theorem ofInt_one : BigInt.ofInt 1 = ⟨.plus, [1]⟩ := by
   have := ofInt_natCast 1; simpa [ofNat_one] using this
@@ -169,9 +169,9 @@ theorem bigint_to_biguint_isSome {x : BigInt} (hx : x.Canon) :
 
 /-- `BigUint → BigInt` always succeeds with the same value (`to_bigint`, `From<BigUint>`) -/
 theorem biguint_to_bigint_spec {a : List Nat} (ha : Canon a) :
-    BigUint.toBigint a = some (BigInt.ofInt (val a)) ∧ BigInt.fromU a = BigInt.ofInt (val a) := by
+    BigUint.toBigint a = some (BigInt.ofInt (val a)) ∧ Core.BigInt.fromU a = BigInt.ofInt (val a) := by
   rw [ofInt_natCast]
-  unfold BigUint.toBigint BigInt.fromU BigUint.clone
+  unfold BigUint.toBigint Core.BigInt.fromU BigUint.clone
   by_cases hz : a = []
   · subst hz; simp [BigUint.isZero, BigInt.zero, BigUint.zero, val]
   · have h1 : ¬ (BigUint.isZero a = true) := by rw [isZero_iff]; exact hz
@@ -206,8 +206,8 @@ theorem biguint_is_one_spec {a : List Nat} (ha : Canon a) : BigUint.isOne a = tr
   · intro h; subst h; simp [val]
   · intro h; exact canon_unique ha canon_one (by simp [val, h])
 
-theorem bigint_is_zero_spec {x : BigInt} (hx : x.Canon) : BigInt.isZero x = true ↔ x.val = 0 :=
-  bigint_isZero_iff hx
+theorem bigint_is_zero_spec {x : BigInt} (hx : x.Canon) : Core.BigInt.isZero x = true ↔ x.val = 0 :=
+  core_bigint_isZero_iff hx
 
 theorem bigint_is_one_spec {x : BigInt} (hx : x.Canon) : BigInt.isOne x = true ↔ x.val = 1 := by
   constructor
